@@ -101,6 +101,9 @@ int main(int argc, char **argv)
 	void *xattrmap = NULL;
 	sqfs_writer_t sqfs;
 	options_t opt;
+#if !defined(_WIN32) && !defined(__WINDOWS__)
+	int cwd = -1;
+#endif
 
 	process_command_line(&opt, argc, argv);
 
@@ -161,6 +164,21 @@ int main(int argc, char **argv)
 			goto out;
 	}
 
+	/*
+	  pack_files changes into the pack directory. The output file may have
+	  been named relative to the current directory and is removed through
+	  that name if anything fails, so remember where we are.
+	 */
+#if !defined(_WIN32) && !defined(__WINDOWS__)
+	if (opt.packdir != NULL) {
+		cwd = open(".", O_RDONLY | O_DIRECTORY);
+		if (cwd < 0) {
+			perror(".");
+			goto out;
+		}
+	}
+#endif
+
 	if (pack_files(sqfs.data, &sqfs.fs, &opt))
 		goto out;
 
@@ -169,6 +187,13 @@ int main(int argc, char **argv)
 
 	status = EXIT_SUCCESS;
 out:
+#if !defined(_WIN32) && !defined(__WINDOWS__)
+	if (cwd >= 0) {
+		if (fchdir(cwd) != 0)
+			perror("returning to the initial working directory");
+		close(cwd);
+	}
+#endif
 	sqfs_writer_cleanup(&sqfs, status);
 	if (sehnd != NULL)
 		selinux_close_context_file(sehnd);
